@@ -379,7 +379,7 @@ func testPrivKeys(n int) [][]byte {
 
 func init() {
 	p := register(&Prop{ID: "C15", Level: "exploration",
-		Rule: "exhaustive: for 12 (quick) / 28 (thorough) 20-byte hashes (all-zero, leading zeros, all-ff, structured) and 6/12 keys, both networks: derivation through every address/P2PKH constructor (incl. the two extended-key constructors, whose derivation path is the library's own random choice and is followed by the oracle) compared with a reference Base58Check encoder and the canonical 25-byte script; and for every derived address EVERY single-character substitution (58 symbols x every position, plus 5 non-ASCII replacements per position: code points U+01xx/U+20xx/U+100xx whose low byte is the replaced character, the character with the high bit set, 0xff), adjacent transposition, insertion (58 symbols + 6 non-Base58 characters at every gap incl. a leading '1') and deletion, plus wrong version bytes (0x05,0xc4,0x01), 24/26-byte payloads with correct checksums and over-long strings whose value is the payload plus k*2^200 (k in 9 values incl. multiples of 58); keys include two whose X coordinate begins with a zero byte, each through NewAddressFromString, NewP2PKHFromAddress, PayToAddress, ChangeToAddress and ValidateAddress: accepted iff the reference decoder accepts. distinct_nontrivial = distinct strings judged",
+		Rule: "exhaustive: for 12 (quick) / 28 (thorough) 20-byte hashes (all-zero, leading zeros, all-ff, structured) and 6/12 keys, both networks: derivation through every address/P2PKH constructor (incl. the two extended-key constructors, whose derivation path is the library's own random choice and is followed by the oracle) compared with a reference Base58Check encoder and the canonical 25-byte script; and for every derived address EVERY single-character substitution (58 symbols x every position, plus 5 non-ASCII replacements per position: code points U+01xx/U+20xx/U+100xx whose low byte is the replaced character, the character with the high bit set, 0xff), adjacent transposition, insertion (58 symbols + 6 non-Base58 characters at every gap incl. a leading '1') and deletion, plus wrong version bytes (0x05,0xc4,0x01), 24/26-byte payloads with correct checksums and over-long strings whose value is the payload plus k*2^200 (k in 9 values incl. multiples of 58); keys include two whose X coordinate begins with a zero byte, and well-formed BIP276 texts (which are not addresses); each through NewAddressFromString, NewP2PKHFromAddress, PayToAddress, ChangeToAddress and ValidateAddress: accepted iff the reference decoder accepts. distinct_nontrivial = distinct strings judged",
 	})
 	sStr := NewSpace(p, "strings", c15StrCheck)
 	sKey := NewSpace(p, "derive", c15KeyCheck)
@@ -474,6 +474,15 @@ func init() {
 						enc := refB58Encode(w.Bytes())
 						yield(c15Str{strings.Repeat("1", zeros) + enc})
 						yield(c15Str{enc})
+					}
+				}
+				// well-formed BIP276 texts (ValidateAddress knows them, but they are not addresses: nothing that
+				// builds a P2PKH locking script from an address may accept one)
+				for _, pl := range [][]byte{refP2PKH(hash), {0x51}, {0x00, 0x6a}, c14Templates()["ms1of1"]} {
+					for _, pf := range []string{bscript.PrefixScript, bscript.PrefixTemplate} {
+						for _, vn := range [][2]int{{1, 1}, {2, 2}, {1, 2}} {
+							yield(c15Str{bscript.EncodeBIP276(bscript.BIP276{Prefix: pf, Version: vn[0], Network: vn[1], Data: pl})})
+						}
 					}
 				}
 				yield(c15Str{""})
